@@ -21,9 +21,24 @@ ClsOf(e) ==
    CASE e.k = "msg" -> MsgCls(e.m, e.h)
      [] e.k = "fire" -> (CASE e.t = "cr" -> "T_CR" [] e.t = "hold" -> "T_HOLD" [] e.t = "ka" -> "T_KA" [] e.t = "idle" -> "T_IDLE")
      [] e.k = "boot" -> "BOOT" [] e.k = "connOk" -> "CONN_OK" [] e.k \in {"connRefused", "tcpTimeout"} -> "CONN_FAIL"
-     [] e.k = "connLost" -> "CONN_LOST" [] e.k = "tick" -> "TICK" [] e.k = "stop" -> "STOP" [] e.k = "start" -> "START"
+     [] e.k = "connLost" -> "CONN_LOST" [] e.k = "tick" -> "TICK" [] e.k = "stop" -> "STOP" [] e.k = "start" -> "START" [] e.k = "rest" -> "REST"
      [] OTHER -> "OTHER"
 
+\* what the harness asks through REST for a model-level request kind, and what the model says the answer is
+RqOf(e) ==
+   LET z == [cls |-> "", valid |-> FALSE, etype |-> "", wdn |-> 0, nln |-> 0, ats |-> <<>>, ibgp |-> FALSE] IN
+   IF e.k # "rest" THEN z
+   ELSE CASE e.m \in {"SEND_UPDATE", "BADCRED_SEND"} -> [z EXCEPT !.cls = "send", !.valid = TRUE, !.etype = "UPDATE", !.nln = 1, !.ats = <<1, 2, 3>>]
+          [] e.m = "SEND_RR" -> [z EXCEPT !.cls = "send", !.valid = TRUE, !.etype = "RR"]
+          [] e.m = "READ_STATE" -> [z EXCEPT !.cls = "read"]
+          [] OTHER -> [z EXCEPT !.cls = "ctl"]
+RestOf(e, a) ==
+   IF e.k # "rest" THEN [rule |-> "", method |-> "", cred |-> "", status |-> 200, ok |-> 1, hasbin |-> FALSE]
+   ELSE CASE e.m = "SEND_UPDATE" -> [rule |-> "send/update", method |-> "POST", cred |-> "good", status |-> 200, ok |-> IF a.st = "ESTABLISHED" THEN 1 ELSE 2, hasbin |-> FALSE]
+          [] e.m = "SEND_RR" -> [rule |-> "send/route-refresh", method |-> "POST", cred |-> "good", status |-> 200, ok |-> IF a.st = "ESTABLISHED" THEN 1 ELSE 2, hasbin |-> FALSE]
+          [] e.m = "READ_STATE" -> [rule |-> "state", method |-> "GET", cred |-> "good", status |-> 200, ok |-> 0, hasbin |-> FALSE]
+          [] e.m = "BADCRED_SEND" -> [rule |-> "send/update", method |-> "POST", cred |-> "badpass", status |-> 401, ok |-> 0, hasbin |-> FALSE]
+          [] OTHER -> [rule |-> "manual-stop", method |-> "GET", cred |-> "none", status |-> 401, ok |-> 0, hasbin |-> FALSE]
 CsOf(r, c) == IF c = 0 THEN "none" ELSE r.conns[c].cs
 LeakOf(r) == Cardinality({c \in 1..Len(r.conns) : r.conns[c].cs = "open" /\ c # r.cur})
 PendOf(r) == Cardinality({t \in Timers : r.tm[t] # Off}) +
@@ -35,9 +50,9 @@ LineOf(a, e, b) ==
     pst |-> a.st, st |-> b.st, plive |-> Cardinality(LiveSet(a)), live |-> Cardinality(LiveSet(b)),
     ptr |-> a.cur, tr |-> b.trk, ptrcs |-> CsOf(a, a.cur), trcs |-> b.trks,
     pleak |-> LeakOf(a), leak |-> LeakOf(b), pend |-> PendOf(b),
-    out |-> b.out, rep |-> b.rep, closes |-> b.cl, att |-> b.att, exc |-> 0, hang |-> FALSE,
+    out |-> [k \in 1..Len(b.out) |-> b.out[k] @@ [wdn |-> 0, nln |-> 1, ats |-> <<1, 2, 3>>, lp |-> -1]], rep |-> b.rep, closes |-> b.cl, att |-> b.att, exc |-> 0, hang |-> FALSE,
     sS |-> <<>>, sR |-> <<>>, wS |-> <<>>, wR |-> <<>>, fz |-> "", flen |-> 0, probeok |-> TRUE, aspathok |-> TRUE, acc |-> 0, esub |-> 0,
-    rest |-> [rule |-> "", method |-> "", cred |-> "", status |-> 200, ok |-> 1]]
+    rq |-> RqOf(e), statsame |-> (b.out = <<>>), rest |-> RestOf(e, a)]
 \* in the model "manual stop in force" is exactly allow_automatic_start = FALSE
 MonOf(a) == [Mon0 EXCEPT !.stopped = IF a.allow THEN "no" ELSE "yes"]
 
